@@ -145,6 +145,25 @@ func init() {
 	for name, fn := range builtin {
 		RegisterXFunction(name, fn)
 	}
+
+	RegisterXWork("regex_match", TextAndRegexWork)
+}
+
+// TextAndRegexWork is the work of matching a text with a regular expression, for functions which take those as their
+// first two arguments
+func TextAndRegexWork(env envs.Environment, args []types.XValue) int {
+	if len(args) < 2 {
+		return 0
+	}
+	text, xerr := types.ToXText(env, args[0])
+	if xerr != nil {
+		return 0
+	}
+	pattern, xerr := types.ToXText(env, args[1])
+	if xerr != nil {
+		return 0
+	}
+	return RegexWork(`(?mi)`+pattern.Native(), text.Native())
 }
 
 //------------------------------------------------------------------------------------------
